@@ -14,7 +14,7 @@ func init() {
 	register(&Check{
 		ID:  "C06",
 		Run: runC06,
-		Explanation: "Decides the protocol shape of the four sibling transactional publishers (font.commitCollectionFonts, api.commitStagedFontsWithOperations, api.publishCheatSheets, api.publishCertificateImports + backupCertificateDestinations): (R1 rollback on every failure) every error return that can follow a mutating step of the transaction (a rename through the operation table, the certificate backup step) and is not in the post-publication tail (after the publishing loop has finished) returns an error value computed from a call that reaches the publisher's rollback sibling (directly or through the local rollback closure); (R2 bookkeeping) on the success edge of every rename in a publisher the record flag (hadOriginal / committed / published) is stored true before any other call, return or loop iteration can happen, so that a later rollback knows about the step — a flag set after the following directory sync, as in a reordering refactor, is rejected; the rollback siblings read exactly those flags and walk the records in reverse; (R3) staging directories created with mkdirTemp/createStagingDir/createInputDir are removed on every path (deferred or on each failure return) unless ownership is returned; (R4) every rollback sibling mentions the backup location (backupDir / backupFile) in the error it returns when restoring failed; (R5) api.installFonts calls commit.rollback() on the failure branch after a successful commit (reload failure). NOT decided: that rollback restores exactly the previous bytes, behaviour under double faults, and the per-font gob writer (C07).",
+		Explanation: "Decides the protocol shape of the four sibling transactional publishers (font.commitCollectionFonts, api.commitStagedFontsWithOperations, api.publishCheatSheets, api.publishCertificateImports + backupCertificateDestinations): (R1 rollback on every failure) every error return that can follow a mutating step of the transaction (a rename through the operation table, the certificate backup step) and is not in the post-publication tail (after the publishing loop has finished) returns an error value computed from a call that reaches the publisher's rollback sibling (directly or through the local rollback closure); (R2 bookkeeping) on the success edge of every rename in a publisher the record flag (hadOriginal / committed / published) is stored true before any other call, return or loop iteration can happen, so that a later rollback knows about the step — a flag set after the following directory sync, as in a reordering refactor, is rejected; the rollback siblings read exactly those flags and walk the records in reverse; (R3) staging directories created with mkdirTemp/createStagingDir/createInputDir are removed on every path (deferred or on each failure return) unless ownership is returned; (R4) every rollback sibling mentions the backup location (backupDir / backupFile) in the error it returns when restoring failed; (R5) api.installFonts calls commit.rollback() on the failure branch after a successful commit (reload failure). (R6) the existence probe of the transactions (the op-table field lstat that decides whether a target is backed up before it is replaced) is bound to os.Lstat in every production table: os.Stat reports a dangling symlink as absent, the entry is overwritten without a backup and a rollback cannot restore it; (R7) every name appended to the list handed to publishCheatSheets passed a duplicate test-and-set on a map that outlives the appending loops (no bulk append): a name listed twice is backed up twice under the same name, which destroys the original. NOT decided: that rollback restores exactly the previous bytes, behaviour under double faults, and the per-font gob writer (C07).",
 		Rules: []string{
 			"C06.R1 MPT/flow: failure after a mutating step returns through the rollback sibling",
 			"C06.R2 typestate: record flag stored on the rename's success edge before anything else; rollback reads the flags",
@@ -62,6 +62,10 @@ func runC06(c *Ctx) {
 	}
 	pc := &pairCtx{c: c, triv: &triviality{cg: c.CG(), memo: map[*ssa.Function]int{}}, rule: "C06", r1: "C06.R3", noPanicRule: true}
 	pc.runPair(c06Kinds)
+	r.MinInst["C06.R6"] = 3
+	r.MinInst["C06.R7"] = 1
+	checkExistenceProbes(c)
+	checkUniqueLists(c)
 	// R5
 	if fn := c.P.Func("pkg/api.installFonts"); fn == nil {
 		r.Bad("C06.R5", "pkg/api.installFonts", "anchor", "", "UNRESOLVED-ANCHOR")
@@ -387,4 +391,191 @@ func checkRollbackSibling(c *Ctx, tp txPublisher) {
 	} else {
 		r.Bad("C06.R4", tp.rollback, "backup-location", p.Pos(fn.Pos()), "when restoring fails the rollback's error no longer names the backup location ("+tp.backupTok+"): the user cannot find the retained originals")
 	}
+}
+
+// ---------------- C06.R6 / R7 (round 2 of seeding) ----------------
+
+// checkExistenceProbes (C06.R6): the transaction tables decide "does the target exist → back it up first" through a field of
+// type func(string) (os.FileInfo, error). Its production binding must be os.Lstat: os.Stat follows links and reports a
+// dangling symlink as absent, so the entry would be overwritten without a backup and lost by a later rollback.
+func checkExistenceProbes(c *Ctx) {
+	p, r := c.P, c.R
+	n := 0
+	for _, fn := range p.Funcs {
+		fid := FuncID(fn)
+		if !strings.HasPrefix(fid, "pkg/api.") && !strings.HasPrefix(fid, "pkg/font.") {
+			continue
+		}
+		fn := fn
+		eachInstr(fn, func(_ *ssa.BasicBlock, _ int, i ssa.Instruction) {
+			st, ok := i.(*ssa.Store)
+			if !ok {
+				return
+			}
+			fa, ok := st.Addr.(*ssa.FieldAddr)
+			if !ok {
+				return
+			}
+			f := structField(fa.X.Type(), fa.Field)
+			if f == nil || f.Type().String() != "func(string) (io/fs.FileInfo, error)" && f.Type().String() != "func(string) (os.FileInfo, error)" {
+				return
+			}
+			if f.Name() != "lstat" {
+				return
+			}
+			tgt, _ := st.Val.(*ssa.Function)
+			if tgt == nil {
+				return // bound from a parameter or another table: followed at its own store
+			}
+			n++
+			name := tgt.String()
+			construct := fmt.Sprintf("binding %s.%s", typeNameOf(fa.X.Type()), f.Name())
+			if name == "os.Lstat" {
+				r.OK("C06.R6", fid, construct, p.Pos(st.Pos()), "the existence probe of the transaction is os.Lstat (does not follow links)", true)
+			} else {
+				r.Bad("C06.R6", fid, construct, p.Pos(st.Pos()), "the existence probe that decides whether a target is backed up before it is replaced is bound to "+name+": a target that is a dangling symlink looks absent, is overwritten without a backup and cannot be restored by the rollback")
+			}
+		})
+	}
+	if n == 0 {
+		r.Bad("C06.R6", "-", "anchor", "", "UNRESOLVED-ANCHOR: no production binding of an lstat field found")
+	}
+}
+
+// c06UniqueLists: publishers that process a list of target names one by one and back each target up under the same name:
+// a name listed twice makes the second pass move the just-published file over the backup of the original.
+var c06UniqueLists = map[string]int{
+	"pkg/api.publishCheatSheets": 2,
+}
+
+// checkUniqueLists (C06.R7): every element appended to the list handed to such a publisher passed a duplicate test-and-set on
+// a map that outlives the loop(s) doing the appending.
+func checkUniqueLists(c *Ctx) {
+	p, r := c.P, c.R
+	gs := newGuardSet(p)
+	sites := 0
+	for _, fn := range p.Funcs {
+		fid := FuncID(fn)
+		if !strings.HasPrefix(fid, "pkg/") {
+			continue
+		}
+		fn := fn
+		eachInstr(fn, func(_ *ssa.BasicBlock, _ int, i ssa.Instruction) {
+			call, ok := i.(*ssa.Call)
+			if !ok {
+				return
+			}
+			_, ref := callRef(call)
+			idx, ok := c06UniqueLists[ref]
+			if !ok || idx >= len(call.Call.Args) {
+				return
+			}
+			sites++
+			// appends feeding the argument
+			var appends []*ssa.Call
+			seen := map[ssa.Value]bool{}
+			var walk func(v ssa.Value)
+			walk = func(v ssa.Value) {
+				if seen[v] {
+					return
+				}
+				seen[v] = true
+				switch x := v.(type) {
+				case *ssa.Phi:
+					for _, e := range x.Edges {
+						walk(e)
+					}
+				case *ssa.Call:
+					if b, ok := x.Call.Value.(*ssa.Builtin); ok && b.Name() == "append" {
+						appends = append(appends, x)
+						walk(x.Call.Args[0])
+					}
+				case *ssa.UnOp:
+					for _, lf := range valueLeaves(x) {
+						if lf != ssa.Value(x) {
+							walk(lf)
+						}
+					}
+				}
+			}
+			walk(call.Call.Args[idx])
+			gf := gs.factsMode(fn, nil, true)
+			loops := naturalLoops(fn)
+			for k, ap := range appends {
+				construct := fmt.Sprintf("%s list append#%d", ref, k+1)
+				pos := p.Pos(ap.Pos())
+				// innermost loop containing the append
+				var inner *natLoop
+				for _, l := range loops {
+					if l.blocks[ap.Block()] && (inner == nil || len(l.blocks) < len(inner.blocks)) {
+						inner = l
+					}
+				}
+				// spread of another slice: elements are not tested individually
+				if sl, ok := ap.Call.Args[1].(*ssa.Slice); !ok || !isLocalLiteralSlice(sl) {
+					r.Bad("C06.R7", fid, construct, pos, "a whole slice is appended to the list of targets handed to "+ref+" without a per-element duplicate test: a name listed twice is backed up twice under the same name and the original is destroyed")
+					continue
+				}
+				kill := map[ssa.Instruction]bool{}
+				if inner != nil {
+					kill[inner.header.Instrs[0]] = true
+				}
+				ff := gf.flow(kill)
+				ok := len(gf.all) > 0 && gf.satisfied(ff, ap)
+				// the map must outlive the outermost loop containing the append
+				if ok {
+					ok = false
+					for f := range factsAt(ff, ap) {
+						if strings.HasPrefix(f, "s:") {
+							if mapOutlivesLoops(fn, f[2:], ap, loops) {
+								ok = true
+							}
+						}
+					}
+				}
+				if ok {
+					r.OK("C06.R7", fid, construct, pos, "each element passes a duplicate test-and-set on a map created outside the appending loops", true)
+				} else {
+					r.Bad("C06.R7", fid, construct, pos, "an element is appended to the list of targets handed to "+ref+" without having passed a duplicate test-and-set on a map that spans the whole list")
+				}
+			}
+			if len(appends) == 0 {
+				r.OK("C06.R7", fid, ref+" list", p.Pos(call.Pos()), "the list is not built by appends in this function", false)
+			}
+		})
+	}
+	if sites == 0 {
+		r.Bad("C06.R7", "-", "anchor", "", "UNRESOLVED-ANCHOR: no call of a unique-list publisher")
+	}
+}
+
+func factsAt(ff *FactFlow, i ssa.Instruction) map[string]bool {
+	f, _ := ff.At(i)
+	return f
+}
+
+// isLocalLiteralSlice: the variadic slice built by the compiler for append(s, a, b) — a Slice of a fresh Alloc.
+func isLocalLiteralSlice(sl *ssa.Slice) bool {
+	_, ok := sl.X.(*ssa.Alloc)
+	return ok
+}
+
+// mapOutlivesLoops: the map named by access path m is created (MakeMap) outside every loop that contains the append, or is
+// a parameter / field.
+func mapOutlivesLoops(fn *ssa.Function, m string, ap *ssa.Call, loops []*natLoop) bool {
+	ok := true
+	found := false
+	eachInstr(fn, func(b *ssa.BasicBlock, _ int, i ssa.Instruction) {
+		mk, isMk := i.(*ssa.MakeMap)
+		if !isMk || accessPath(mk) != m {
+			return
+		}
+		found = true
+		for _, l := range loops {
+			if l.blocks[ap.Block()] && l.blocks[b] {
+				ok = false
+			}
+		}
+	})
+	return ok || !found
 }
